@@ -229,6 +229,33 @@ func checkAlwaysSigned(r *Report, p *Prog) {
 				}
 			}
 		}
+		// ... nor handed, after the Sign step, to a function of the module that writes through the pointer it is given
+		for _, b := range fn.Blocks {
+			for _, in := range b.Instrs {
+				c, ok := in.(*ssa.Call)
+				if !ok || c == sign {
+					continue
+				}
+				sc := c.Call.StaticCallee()
+				if sc == nil || !p.InModule(sc) || len(sc.Blocks) == 0 {
+					continue
+				}
+				after := false
+				if in.Block() == sign.Block() {
+					after = instrBefore(sign.Block(), sign, in)
+				} else {
+					after = blockReaches(sign.Block(), in.Block())
+				}
+				if !after {
+					continue
+				}
+				for i, arg := range c.Call.Args {
+					if (arg == msg || rootOfAddr(arg) == msg) && i < len(sc.Params) && storesThrough(p, sc, sc.Params[i], 0) {
+						late = append(late, fmt.Sprintf("through %s at %s", shortFn(sc), p.InstrPos(in)))
+					}
+				}
+			}
+		}
 		r.Check(len(late) == 0, "C13.enveloped", fmt.Sprintf("%s: the message is not modified after it was signed", p.FnName(fn)), p.InstrPos(sign), "no store to the message after "+ct.signFn, "written after signing: "+strings.Join(late, "; ")+" - the emitted element differs from the one the signature was computed over, so the signature cannot verify")
 	}
 	// redirect binding
@@ -681,6 +708,35 @@ func blockReaches(a, b *ssa.BasicBlock) bool {
 	for _, s := range a.Succs {
 		if dfs(s) {
 			return true
+		}
+	}
+	return false
+}
+
+// storesThrough: fn writes to memory reached through its pointer parameter prm (directly, or in a module function it
+// hands the pointer on to).
+func storesThrough(p *Prog, fn *ssa.Function, prm *ssa.Parameter, depth int) bool {
+	if depth > 2 {
+		return false
+	}
+	for _, b := range fn.Blocks {
+		for _, in := range b.Instrs {
+			switch x := in.(type) {
+			case *ssa.Store:
+				if rootOfAddr(x.Addr) == ssa.Value(prm) {
+					return true
+				}
+			case *ssa.Call:
+				sc := x.Call.StaticCallee()
+				if sc == nil || !p.InModule(sc) || len(sc.Blocks) == 0 {
+					continue
+				}
+				for i, a := range x.Call.Args {
+					if (a == ssa.Value(prm) || rootOfAddr(a) == ssa.Value(prm)) && i < len(sc.Params) && storesThrough(p, sc, sc.Params[i], depth+1) {
+						return true
+					}
+				}
+			}
 		}
 	}
 	return false
